@@ -53,6 +53,74 @@ def run(ctx, obs):
     ceilings_same_sample(ctx, obs)
     ceiling_buffer_layout(ctx, obs)
     covariance_normaliser(ctx, obs)
+    for fn in EVAL_FUNCS:
+        parallel_accumulators(ctx, obs, EV + fn)
+
+
+def parallel_accumulators(ctx, obs, q, rule='PAR-ACC'):
+    """Lists that collect one entry per resample / fold in the same loop (evaluations, noise ceilings) become the parallel columns of
+    one Result: column i of each must belong to resample i.  Every list that is appended to in the loop must therefore be appended
+    to on the same iterations: the per-iteration conditions (tests that read something assigned in the loop) under which the
+    appends happen have to be the same for all of them.  Conditions on loop-invariant options (`if ceil_set is None and
+    calc_noise_ceil`) switch a list on or off as a whole and are ignored."""
+    prog = ctx.prog
+    f = prog.func(q)
+    for lp in [x for x in ast.walk(f.node) if isinstance(x, (ast.For, ast.While))]:
+        # only the outermost loop that contains the appends is judged
+        assigned = {x.id for st in lp.body for x in ast.walk(st) if isinstance(x, ast.Name) and isinstance(x.ctx, ast.Store)}
+        if isinstance(lp, ast.For):
+            assigned |= {x.id for x in ast.walk(lp.target) if isinstance(x, ast.Name)}
+        parents = {}
+        for p_ in ast.walk(lp):
+            for ch in ast.iter_child_nodes(p_):
+                parents[id(ch)] = p_
+        sites = {}
+        for c in ast.walk(lp):
+            if isinstance(c, ast.Call) and isinstance(c.func, ast.Attribute) and c.func.attr == 'append' and isinstance(c.func.value, ast.Name) \
+                    and c.func.value.id not in assigned:
+                inner = [l2 for l2 in ast.walk(lp) if isinstance(l2, (ast.For, ast.While)) and l2 is not lp and any(c is y for y in ast.walk(l2))]
+                if inner:
+                    continue
+                guards = []
+                n, ch = parents.get(id(c)), c
+                while n is not None and n is not lp:
+                    if isinstance(n, ast.If) and not any(ch is y for t in [n.test] for y in ast.walk(t)):
+                        branch = 'body' if any(ch is y for st in n.body for y in ast.walk(st)) else 'orelse'
+                        variant = any(isinstance(x, ast.Name) and x.id in assigned for x in ast.walk(n.test))
+                        if variant:
+                            guards.append((id(n), branch, n))
+                    ch, n = n, parents.get(id(n))
+                sites.setdefault(c.func.value.id, []).append((c, guards))
+        if len(sites) < 2:
+            continue
+        # per list: the set of per-iteration guard signatures of its appends (one signature per append site)
+        sig = {name: sorted(tuple((g[0], g[1]) for g in gs) for _, gs in lst) for name, lst in sites.items()}
+        names = sorted(sig)
+        ref = max(names, key=lambda nm: -sum(len(x) for x in sig[nm]))      # the least guarded list is the reference
+        for nm in names:
+            if nm == ref:
+                continue
+            con = f'`{nm}` and `{ref}` receive an entry on the same iterations of the loop at line {lp.lineno}'
+            # the appends of nm must cover the same iterations as those of ref: compare the guard paths
+            if sig[nm] == sig[ref] or _covers_all(sites[nm]) == _covers_all(sites[ref]):
+                obs.ok(rule, q, con, '', where(prog, f, sites[nm][0][0]))
+            else:
+                c0, g0 = sites[nm][0]
+                cond = norm(g0[0][2].test)[:60] if g0 else 'another condition'
+                obs.bad(rule, q, con, f'`{norm(c0)[:60]}` only happens when `{cond}` is {"true" if (g0 and g0[0][1] == "body") else "false"}, while `{ref}` '
+                        f'gets an entry on every iteration: after a skipped iteration entry i of `{nm}` belongs to another resample than '
+                        f'entry i of `{ref}`', where(prog, f, c0))
+
+
+def _covers_all(site_list) -> bool:
+    """the appends of one list together happen on every iteration: an unguarded append, or appends on both branches of the same test"""
+    if any(not gs for _, gs in site_list):
+        return True
+    by_if = {}
+    for _, gs in site_list:
+        if len(gs) == 1:
+            by_if.setdefault(gs[0][0], set()).add(gs[0][1])
+    return any(v == {'body', 'orelse'} for v in by_if.values())
 
 
 def covariance_normaliser(ctx, obs, rule='COV-N'):
